@@ -48,10 +48,12 @@ namespace rkcommon {
       }
 
      private:
-      // declaration before taskImpl: ensure initialization before task finishes
+      // declaration before taskImpl: the task may start (and, with the Debug
+      // backend, finish) while taskImpl is being constructed, so everything it
+      // writes must already be initialized
       std::atomic<bool> jobFinished{false};
-      detail::AsyncTaskImpl<std::function<void()>> taskImpl;
       T retValue;
+      detail::AsyncTaskImpl<std::function<void()>> taskImpl;
     };
 
   }  // namespace tasking
